@@ -247,6 +247,10 @@ pub fn model_bindings(modules: &[Module], f: usize) -> Bindings {
 // the generator
 
 const FILE_NAMES: &[&str] = &["ma", "mb", "mc", "md", "me", "mf"];
+/// User files may carry the name of a standard-library module as long as they live in a
+/// sub-folder: `use da/math as m` is "da/math.sy" by the documented path rule.
+const STD_LIKE_NAMES: &[&str] = &["math", "list", "set", "common", "maybe", "dict"];
+const STD_NAMESPACES: &[&str] = &["common", "container", "dict", "list", "math", "maybe", "preamble", "set", "unsafe"];
 const DIRS: &[&str] = &["", "", "da/", "db/", "da/dc/"];
 const GLOBAL_POOL: &[&str] = &["qva", "qvb", "qvc", "qvd"];
 
@@ -355,6 +359,8 @@ fn specs_for(modules: &[Module], f: usize, t: usize) -> Vec<(String, &'static st
             }
         }
     }
+    // a bare library name denotes the standard library, not a file
+    out.retain(|(spec, _)| !STD_NAMESPACES.contains(&spec.trim_matches('/')));
     out
 }
 
@@ -376,7 +382,14 @@ pub fn generate(seed: u64) -> Project {
     used_paths.insert("main.sy".into());
     while modules.len() < n {
         let dir = *r.pick(DIRS);
-        let name = if r.chance(1, 4) { "exports" } else { *r.pick(FILE_NAMES) };
+        let name = if r.chance(1, 4) {
+            "exports"
+        } else if !dir.is_empty() && r.chance(1, 5) {
+            features.insert("std_named_user_file");
+            *r.pick(STD_LIKE_NAMES)
+        } else {
+            *r.pick(FILE_NAMES)
+        };
         let rel = format!("{}{}.sy", dir, name);
         if used_paths.insert(rel.clone()) {
             modules.push(Module { rel, globals: vec![], imports: vec![], uses: vec![], raw_body: vec![], raw_top: vec![] });
@@ -422,6 +435,9 @@ pub fn generate(seed: u64) -> Project {
         targets.truncate(k);
         for t in targets {
             let specs = specs_for(&modules, f, t);
+            if specs.is_empty() {
+                continue;
+            }
             let (spec, form) = r.pick(&specs).clone();
             match form {
                 "root" | "root-folder" => {
@@ -462,7 +478,8 @@ pub fn generate(seed: u64) -> Project {
             } else {
                 let implicit = model_implicit_name(&spec);
                 let already_same = b.ns.get(&implicit) == Some(&t);
-                let alias = if spec == "/" || (taken(&implicit) && !already_same) || r.chance(1, 3) {
+                // the implicit name of a std-named file would collide with the namespace the preamble binds
+                let alias = if spec == "/" || STD_NAMESPACES.contains(&implicit.as_str()) || (taken(&implicit) && !already_same) || r.chance(1, 3) {
                     alias_counter += 1;
                     features.insert("use_alias");
                     Some(format!("na{}", alias_counter))
@@ -523,16 +540,19 @@ pub fn generate(seed: u64) -> Project {
                 let chain: Vec<(String, usize)> = b2.ns.iter().map(|(n, t2)| (n.clone(), *t2)).collect();
                 if !chain.is_empty() {
                     let (ns2, t2) = r.pick(&chain).clone();
-                    let gs2: Vec<Global> = modules[t2].globals.iter().filter(|g| !g.is_type).cloned().collect();
+                    let gs2: Vec<Global> = modules[t2].globals.clone();
                     if !gs2.is_empty() {
                         let g2 = r.pick(&gs2).clone();
                         uses.push(UseSite {
                             expr: format!("{}.{}.{}", ns, ns2, g2.name),
                             target: (t2, g2.name.clone()),
                             ty: g2.ty.clone(),
-                            ty_expr: String::new(),
+                            ty_expr: format!("{}.{}.{}", ns, ns2, g2.name),
                         });
                         features.insert("chain_access");
+                        if g2.is_type {
+                            features.insert("chain_type_access");
+                        }
                     }
                 }
             }
